@@ -105,6 +105,12 @@ def query(e, q):
             return ["ok", sf(r)]
         if k == "average_all":
             return ["ok", sf(e.get_average_value())]
+        if k == "average_from":
+            r = e.get_average_value(T(q[1]))
+            r2 = e.parameter_to_value(e.get_average_parameter(T(q[1])))
+            return ["ok", sf(r)] if (r == r2 or (r != r and r2 != r2)) else ["ok", "average-parameter-differs"]
+        if k == "average_to":
+            return ["ok", sf(e.get_average_value(None, T(q[1])))]
         if k == "is_static":
             return ["ok", "1" if e.is_static else "0"]
         if k == "points":
